@@ -52,6 +52,18 @@ def d6_family(rng, n):
                   mkrow("ZED", "%d-08-15" % (y2 + 1), "Sell", "", shares=str(2 * q + 7), aps="17.00", cur="CAD")]
             out.append(("zero-net year #%d" % i, {"rows": rz, "init": {}, "features": ["zero_net_year"]},
                         ["%d-12-31" % y2, "%d-02-01" % (y2 + 1), "%d-10-15" % y2]))
+        if i % 5 == 1:
+            # a second non-registered affiliate whose first transaction comes years after the first one's, the
+            # first one having a net loss in the year before
+            y3 = rng.randint(2014, 2019)
+            other = rng.choice(["Spouse", "Kid"])
+            rl = [mkrow("LATE", "%d-02-10" % y3, "Buy", "", shares="100", aps="10.00", cur="CAD"),
+                  mkrow("LATE", "%d-06-10" % (y3 + 1), "Sell", "", shares="20", aps=gen.dec_str(Fraction(10 - rng.randint(1, 4)), 2), cur="CAD"),
+                  mkrow("LATE", "%d-03-12" % (y3 + 2), "Buy", other, shares="40", aps="6.00", cur="CAD"),
+                  mkrow("LATE", "%d-05-03" % (y3 + 3), "Sell", other, shares="10", aps="8.00", cur="CAD"),
+                  mkrow("LATE", "%d-07-03" % (y3 + 3), "Sell", "", shares="10", aps="12.00", cur="CAD")]
+            out.append(("late affiliate #%d" % i, {"rows": rl, "init": {}, "features": ["late_affiliate"]},
+                        ["%d-12-31" % (y3 + 2), "%d-04-01" % (y3 + 3), "%d-04-01" % (y3 + 2)]))
     return out
 
 
